@@ -273,9 +273,12 @@ func extraIotestReaders(ctx *core.Ctx) (int, string, []core.ExtraFailure) {
 		{"bytes.Reader", func(r io.Reader) io.Reader { return r }, false},
 		{"TimeoutReader", func(r io.Reader) io.Reader { return iotest.TimeoutReader(iotest.OneByteReader(onlyReader{r})) }, true},
 	}
-	lens := []int{0, 1, 15, 16, 17, 31, 100, 32767, 32768, 32769, 70001}
-	if ctx.Tier != "thorough" {
-		lens = []int{0, 1, 16, 17, 100, 32768, 32769, 40000}
+	// plaintext sizes around every buffer size a copy loop might use (512, 4 KiB, 32 KiB = io.Copy,
+	// 64 KiB), and the same minus the 16-byte header (the decrypting side sees 16 + n bytes)
+	lens := []int{0, 1, 15, 16, 17, 31, 100, 496, 511, 512, 513, 4079, 4080, 4081, 4095, 4096, 4097, 8192,
+		32751, 32752, 32753, 32767, 32768, 32769, 65519, 65520, 65521, 65535, 65536, 65537, 70001}
+	if ctx.Tier != "thorough" && ctx.Escalate <= 1 {
+		lens = []int{0, 1, 16, 17, 100, 4080, 4095, 4096, 4097, 32752, 32767, 32768, 32769, 40000, 65536}
 	}
 	r := ctx.Rand.Fork()
 	evals := 0
@@ -389,7 +392,7 @@ func extraLargeInputs(ctx *core.Ctx) (int, string, []core.ExtraFailure) {
 	evals := 0
 	var fails []core.ExtraFailure
 	for i, n := range sizes {
-		secret := r.Bytes([]int{1, 55, 56, 64, 119, 120, 1000}[i%7]) // around MD5's padding boundaries
+		secret := r.Bytes([]int{1, 55, 56, 64, 119, 120, 1000, 65536, 80, 100}[i%10]) // around MD5's padding boundaries, a 64 KiB one
 		ad := r.Bytes([]int{0, 16, 33, 1000}[i%4])
 		salt := r.Bytes(8)
 		pt := r.Bytes(n)
